@@ -305,6 +305,9 @@ def run_unit(unit_path, prop, tier, seed, tag=None):
     block_props = {b['name']: b['props'] for b in rep['blocks']}
     for e in rep['lost']:
         u['undecided'].append({'reason': 'lost-anchor', 'detail': e})
+    for tc in rep.get('trusted_changed', []):
+        # a function whose contract is TRUSTED (its body is outside the verifier) was edited: nothing vouches for the contract any more
+        u['undecided'].append({'reason': 'trusted-function-changed', 'detail': 'the text of %s differs from the reviewed text its trusted contract was written for (sha %s, found %s)' % (tc['block'], tc['expected'], tc['found'])})
     # a function block without a single annotation has no contract: verifying it proves nothing (unit-file error, never /repo's)
     for b in rep['blocks']:
         if b.get('kind') == 'fn' and not b.get('proved_in') and not b.get('insertions') and b['name'] not in rep['changed']:
